@@ -102,6 +102,9 @@ func judgeRestarts(m *Machine, restarts []int64) *Violation {
 	memCont := sim.OracleMemDumpNoNonce()
 	c2, err := sim.Replay(m.W, cont, set)
 	if err != nil {
+		if h, ok := err.(*sim.Halt); ok && os.Getenv("VERIF_DEBUG_HALT") != "" {
+			fmt.Printf("DEBUGHALT %s\n%s\n", h.Error(), h.Stack)
+		}
 		return violation("C14.I2.restarted-node-halts", "restarts after %v: %v", restarts, err)
 	}
 	if d := sim.CompareTranscripts(cont, c2.Blocks); d != "" {
@@ -136,6 +139,13 @@ func init() {
 	base.ID, base.Name = "C14", "C14"
 	base.Invariants = func() []Invariant { return nil }
 	base.MinSteps, base.MaxSteps = 25, 90
+	// parameter changes during the history (a token and its feeder registered through the assets
+	// precompile): the restarted node has to recover them from the stored recent parameters
+	w := map[string]int{"regToken": 3}
+	for k, v := range base.Gen.Weights {
+		w[k] = v
+	}
+	base.Gen.Weights = w
 	registerWorldProp(&base)
 }
 
